@@ -265,9 +265,9 @@ where
 
         if self.result.as_mut().unwrap().is_bin {
             if self.col == 0 {
-                self.result.as_mut().unwrap().writer.write_u8(0x00)?;
-
-                // leave space for nullmap
+                // leave space for nullmap; the row's header byte is only written once the row
+                // is complete (end_row), so a refused value leaves nothing behind in the packet
+                self.data.clear();
                 self.data.resize(self.bitmap_len, 0);
             }
 
@@ -314,11 +314,9 @@ where
         }
 
         if self.result.as_mut().unwrap().is_bin {
-            self.result
-                .as_mut()
-                .unwrap()
-                .writer
-                .write_all(&self.data[..])?;
+            let writer = &mut self.result.as_mut().unwrap().writer;
+            writer.write_u8(0x00)?;
+            writer.write_all(&self.data[..])?;
             self.data.clear();
         }
         self.result.as_mut().unwrap().writer.end_packet()?;
